@@ -257,6 +257,7 @@ def run_part(prop, goprop, engine, gomaxprocs, tier, seed, budget, work, known_s
     # violations: validate by replay in a fresh process, then classify
     new_violations = []
     known_seen = {}
+    unconfirmed = []
     for sig, v in sorted(m["violations"].items()):
         rp = v.get("replay")
         if not rp or not os.path.exists(rp):
@@ -271,6 +272,13 @@ def run_part(prop, goprop, engine, gomaxprocs, tier, seed, budget, work, known_s
             note = "" if ro.get("reproduced") else "; depends on a hardware interleaving, not reproduced by this replay"
             log("KNOWN-FINDING: property=%s %s [sig=%s; seen %d times; example replay=%s%s]" % (prop, known_sigs[sig]["text"], sig, v["count"], dst, note))
             continue
+        if not ro.get("reproduced") and engine == "proc":
+            # real processes on the real kernel: what happens between two script steps is not under the harness' control.
+            # An observation that three fresh re-executions of the same scenario do not show again is not a verdict on
+            # the code (and not trouble of the harness either): it is reported and recorded in the evidence, nothing more.
+            log("UNCONFIRMED (no verdict): %s seen %d time(s), not shown again by re-executing its scenario [%s]: %s" % (sig, v["count"], rp, (v.get("detail") or "").split("\n")[0][:300]))
+            unconfirmed.append(dict(signature=sig, count=v["count"], detail=(v.get("detail") or "")[:500]))
+            continue
         if not ro.get("reproduced"):
             log("INFRASTRUCTURE FAILURE (exit 2): violation %s did not reproduce from its replay file %s in a fresh process" % (sig, rp))
             sys.exit(2)
@@ -280,7 +288,7 @@ def run_part(prop, goprop, engine, gomaxprocs, tier, seed, budget, work, known_s
             dst = os.path.join(REPLAYS, os.path.basename(rp))
             shutil.copy(rp, dst)
             new_violations.append((sig, v, dst))
-    return dict(m=m, recheck=recheck, known_seen=known_seen, new_violations=new_violations, workers=nworkers)
+    return dict(m=m, recheck=recheck, known_seen=known_seen, new_violations=new_violations, workers=nworkers, unconfirmed=unconfirmed)
 
 
 def check(prop, tier):
@@ -342,6 +350,7 @@ def check(prop, tier):
                                  mismatches=sum(r["m"]["self_check"][1] + r["recheck"]["mismatches"] for _p, r in results),
                                  divergent_runs=[d for _p, r in results for d in r["m"]["divergent"]][:20]),
         known_findings_seen={k: v["count"] for k, v in known_seen.items()},
+        unconfirmed_observations=[u for _p, r in results for u in r.get("unconfirmed", [])],
         new_violation_signatures=[s for s, _, _ in new_violations],
         components=dict(real=sorted({x for _p, r in results for x in (r["m"]["meta"] or {}).get("real", [])}), stub=sorted({x for _p, r in results for x in (r["m"]["meta"] or {}).get("stub", [])})),
     )
